@@ -50,9 +50,6 @@ impl vstd::std_specs::cmp::PartialOrdSpecImpl for Duration {
 pub struct HashMap<K, V> { _k: PhantomData<K>, _v: PhantomData<V> }
 pub uninterp spec fn hm_view<V>(m: &HashMap<CowStr, V>) -> Map<Seq<char>, V>;
 impl<V> View for HashMap<CowStr, V> { type V = Map<Seq<char>, V>; open spec fn view(&self) -> Map<Seq<char>, V> { hm_view(self) } }
-/// extensionality of the stand-in: a map *is* its view (std HashMap has no other observable state here)
-pub broadcast axiom fn hm_ext<V>(a: &HashMap<CowStr, V>, b: &HashMap<CowStr, V>)
-    ensures #[trigger] hm_view(a) == #[trigger] hm_view(b) ==> a == b;
 impl<V> HashMap<CowStr, V> {
     #[verifier::external_body]
     pub fn new() -> (r: Self) ensures r@ == Map::<Seq<char>, V>::empty() { unimplemented!() }
@@ -201,3 +198,90 @@ impl SessionStore {
 #[verifier::external_body] pub struct SameSite { _p: u8 }
 impl Clone for SameSite { #[verifier::external_body] fn clone(&self) -> (r: Self) ensures r == *self { unimplemented!() } }
 impl Copy for SameSite {}
+
+// ---- cookies (pavex::cookie = biscotti): a transparent model of the builder ---------------------
+// ASSUMED: each setter changes exactly the attribute it names; `new` sets name and value only.
+pub struct ResponseCookie<'a> {
+    pub name: String, pub value: String,
+    pub domain: Option<String>, pub path: Option<String>, pub same_site: Option<SameSite>,
+    pub secure: Option<bool>, pub http_only: Option<bool>, pub max_age: Option<SignedDuration>,
+    /// true for a cookie produced from a `RemovalCookie`
+    pub removal: bool,
+    pub _p: PhantomData<&'a ()>,
+}
+impl<'a> ResponseCookie<'a> {
+    pub fn new(name: String, value: String) -> (r: Self)
+        ensures r.name == name, r.value == value, r.domain is None, r.path is None, r.same_site is None,
+            r.secure is None, r.http_only is None, r.max_age is None, !r.removal
+    { ResponseCookie { name, value, domain: None, path: None, same_site: None, secure: None, http_only: None, max_age: None, removal: false, _p: PhantomData } }
+    pub fn set_domain(self, d: String) -> (r: Self) ensures r == (ResponseCookie { domain: Some(d), ..self }) { ResponseCookie { domain: Some(d), ..self } }
+    pub fn set_path(self, p: String) -> (r: Self) ensures r == (ResponseCookie { path: Some(p), ..self }) { ResponseCookie { path: Some(p), ..self } }
+    pub fn set_same_site(self, s: SameSite) -> (r: Self) ensures r == (ResponseCookie { same_site: Some(s), ..self }) { ResponseCookie { same_site: Some(s), ..self } }
+    pub fn set_secure(self, b: bool) -> (r: Self) ensures r == (ResponseCookie { secure: Some(b), ..self }) { ResponseCookie { secure: Some(b), ..self } }
+    pub fn set_http_only(self, b: bool) -> (r: Self) ensures r == (ResponseCookie { http_only: Some(b), ..self }) { ResponseCookie { http_only: Some(b), ..self } }
+    pub fn set_max_age(self, m: SignedDuration) -> (r: Self) ensures r == (ResponseCookie { max_age: Some(m), ..self }) { ResponseCookie { max_age: Some(m), ..self } }
+}
+pub struct RemovalCookie<'a> { pub name: String, pub domain: Option<String>, pub path: Option<String>, pub _p: PhantomData<&'a ()> }
+impl<'a> RemovalCookie<'a> {
+    pub fn new(name: String) -> (r: Self) ensures r.name == name, r.domain is None, r.path is None { RemovalCookie { name, domain: None, path: None, _p: PhantomData } }
+    pub fn set_domain(self, d: String) -> (r: Self) ensures r == (RemovalCookie { domain: Some(d), ..self }) { RemovalCookie { domain: Some(d), ..self } }
+    pub fn set_path(self, p: String) -> (r: Self) ensures r == (RemovalCookie { path: Some(p), ..self }) { RemovalCookie { path: Some(p), ..self } }
+}
+/// `RemovalCookie -> ResponseCookie`: keeps name, domain and path; marks the cookie as a removal (value irrelevant)
+pub uninterp spec fn removal_value() -> String;
+pub open spec fn removal_of<'a>(c: RemovalCookie<'a>) -> ResponseCookie<'a> {
+    ResponseCookie { name: c.name, value: removal_value(), domain: c.domain, path: c.path, same_site: None, secure: None, http_only: None, max_age: None, removal: true, _p: PhantomData }
+}
+impl<'a> FromSpecImpl<RemovalCookie<'a>> for ResponseCookie<'a> {
+    open spec fn obeys_from_spec() -> bool { true }
+    open spec fn from_spec(c: RemovalCookie<'a>) -> Self { removal_of(c) }
+}
+impl<'a> From<RemovalCookie<'a>> for ResponseCookie<'a> {
+    #[verifier::external_body]
+    fn from(c: RemovalCookie<'a>) -> (r: Self) { unimplemented!() }
+}
+
+// ---- pavex::time::SignedDuration (jiff) ----------------------------------------------------------
+/// modelled by a number of nanoseconds
+pub struct SignedDuration { pub nanos: i128 }
+impl SignedDuration {
+    pub const MAX: SignedDuration = SignedDuration { nanos: i128::MAX };
+}
+pub open spec fn signed_max() -> SignedDuration { SignedDuration { nanos: i128::MAX } }
+pub uninterp spec fn dur_to_signed(d: Duration) -> Option<SignedDuration>;
+pub struct TryFromDurationError;
+impl vstd::std_specs::convert::TryFromSpecImpl<Duration> for SignedDuration {
+    open spec fn obeys_try_from_spec() -> bool { true }
+    open spec fn try_from_spec(d: Duration) -> Result<Self, TryFromDurationError> {
+        match dur_to_signed(d) { Some(s) => Ok(s), None => Err(TryFromDurationError) }
+    }
+}
+impl TryFrom<Duration> for SignedDuration {
+    type Error = TryFromDurationError;
+    #[verifier::external_body] fn try_from(d: Duration) -> (r: Result<Self, TryFromDurationError>) { unimplemented!() }
+}
+
+// ---- serde_json: the wire format of the cookie value ----------------------------------------------
+/// `serde_json::to_string(&WireClientState { session_id, user_values })` — an uninterpreted, deterministic
+/// function of the id and of the client-side key/values (ASSUMED: serde's derive writes exactly those two).
+pub uninterp spec fn wire(id: SessionId, kv: Map<Seq<char>, Value>) -> Seq<char>;
+pub mod serde_json {
+    use super::*;
+    #[verifier::external_body]
+    pub fn to_string(v: &WireClientState<'_>) -> (r: Result<String, SerdeJsonError>)
+        ensures r matches Ok(s) ==> s@ == wire(v.session_id, cow_val(v.user_values)@)
+    { unimplemented!() }
+}
+
+// ---- std bits without a vstd spec -------------------------------------------------------------------
+pub uninterp spec fn deref_of<T: core::ops::Deref>(t: &T) -> &<T as core::ops::Deref>::Target;
+pub assume_specification<T: core::ops::Deref>[Option::<T>::as_deref](o: &Option<T>) -> (r: Option<&<T as core::ops::Deref>::Target>)
+    ensures r == (match *o { Some(t) => Some(deref_of(&t)), None => None });
+/// `String: Deref<Target = str>` keeps the characters
+pub broadcast axiom fn deref_string(s: &String)
+    ensures #[trigger] deref_of::<String>(s)@ == s@;
+#[verifier::allow(undeclared_external_trait)]
+pub assume_specification<T, E>[Result::<T, E>::unwrap_or](res: Result<T, E>, default: T) -> (r: T)
+    where E: core::marker::Destruct, T: core::marker::Destruct
+    ensures r == (match res { Ok(t) => t, Err(_) => default });
+
